@@ -583,6 +583,9 @@ fn capture_one<'tcx>(tcx: TyCtxt<'tcx>, def: LocalDefId) {
     }
     seen.push(idx);
   }
+  if !matches!(tcx.def_kind(def), DefKind::Fn | DefKind::AssocFn | DefKind::Closure) {
+    return;
+  }
   if !tcx.is_mir_available(def.to_def_id()) && !tcx.hir_maybe_body_owned_by(def).is_some() {
     return;
   }
